@@ -23,7 +23,7 @@ import (
 // here; anything else is reported as UNDECIDED, never skipped.
 func init() {
 	register("C21", []string{"tg", "mt", "tg/e2e"}, func(c *engine.Ctx) {
-		c.Explain("C21, over every type with EncodeBare/DecodeBare in tg, mt, tg/e2e (thorough: also gen/example): (R1, wire language) the sequence of wire operations written by EncodeBare equals the sequence read by DecodeBare — same fields in the same order, same primitive (PutX ↔ X), boxed vs bare nested object (Encode ↔ Decode / DecodeX(b), EncodeBare ↔ DecodeBare), boxed vs bare vector header (PutVectorHeader ↔ VectorHeader, PutInt(len) ↔ Int), same element form, and every conditional block guarded by the same Flags-field.Has(n) on both sides; vector loops have the canonical counting form. (R2, flags) SetFlags sets bit n of the same flags field exactly for the fields the encoder/decoder guard with Has(n) (conditional-bool fields: the decoder assigns Has(n)); EncodeBare calls SetFlags before writing. (R3, identity) Encode writes PutID(C) and Decode consumes the same constant C, C is the constant TypeID() returns, the registry maps C to this type's name entry and to a constructor of this type, and every DecodeX interface function has, for every implementer of the class in the package, an arm `case <its TypeID constant>` that decodes a value of that type, plus a default that returns an error. (R4, safe subset) decoder bodies contain no index/slice expression, no type assertion, no panic, no division other than the preallocation remainder, and call only buffer decode methods, generated Decode*/DecodeBare, Flags.Has, fmt.Errorf, append, make; every receiver is nil-checked first. (R5) every make in a decoder has length 0 and capacity n % bin.PreallocateLimit under n > 0.")
+		c.Explain("C21, over every type with EncodeBare/DecodeBare in tg, mt, tg/e2e (thorough: also gen/example): (R1, wire language) the sequence of wire operations written by EncodeBare equals the sequence read by DecodeBare — same fields in the same order, same primitive (PutX ↔ X), boxed vs bare nested object (Encode ↔ Decode / DecodeX(b), EncodeBare ↔ DecodeBare), boxed vs bare vector header (PutVectorHeader ↔ VectorHeader, PutInt(len) ↔ Int), same element form, and every conditional block guarded by the same Flags-field.Has(n) on both sides; vector loops have the canonical counting form. (R2, flags) SetFlags sets bit n of the same flags field exactly for the fields the encoder/decoder guard with Has(n) (conditional-bool fields: the decoder assigns Has(n)); EncodeBare calls SetFlags before writing. (R3, identity) Encode writes PutID(C) and Decode consumes the same constant C, C is the constant TypeID() returns, the registry maps C to this type's name entry and to a constructor of this type, and every DecodeX interface function has, for every implementer of the class in the package, an arm `case <its TypeID constant>` that decodes a value of that type, plus a default that returns an error. (R4, safe subset) decoder bodies contain no index/slice expression, no type assertion, no panic, no division other than the preallocation remainder, and call only buffer decode methods, generated Decode*/DecodeBare, Flags.Has, fmt.Errorf, append, make; every receiver is nil-checked first. (R5) every make in a decoder has length 0 and capacity n %% bin.PreallocateLimit under n > 0.")
 		c.NotCover("value equality of floats/NaN; recursion depth of nested objects; JSON/TDLib codecs; TypeInfo")
 		c21(c)
 	})
